@@ -1283,7 +1283,8 @@ func (te *TemplateEngine) cloneTableProperties(source *TableProperties) *TablePr
 	// 复制表格样式
 	if source.TableStyle != nil {
 		props.TableStyle = &TableStyle{
-			Val: source.TableStyle.Val,
+			Val:  source.TableStyle.Val,
+			Name: source.TableStyle.Name,
 		}
 	}
 
